@@ -396,6 +396,18 @@ def check_decl(rep, name, jm, r, decl, c, stats, st):
         # (d) dispatch
         if not any(o.kind == "unmodelled" and not o.ok for o in ev.obls) and ev.always_fails is None:
             check_dispatch(rep, jm, r, decl, c, ev, where, stats)
+    # the public entry point: wraps the bytes, sets the byte order, requires the whole input to be consumed
+    em = jm.method(c, "fromBytes", lambda m: javaeval.ptype(m, 0) != "ByteBuffer" and m.get("params"))
+    if em is not None:
+        ev0 = javaeval.JParse(jm, c, em, st).run()
+        stats["functions"] += 1
+        for o in ev0.obls:
+            if o.kind in ("byte-order", "trailing-bytes", "unmodelled"):
+                stats["obligations"] += 1
+                if o.ok:
+                    stats["discharged"] += 1
+                else:
+                    rep.add(key_for(o, "entry"), o.what, f"{name} {c['name']}.fromBytes(byte[])")
     check_width(rep, jm, r, decl, c, where, stats)
     # ---- serialize
     sm = None
